@@ -13,7 +13,7 @@ from mzverif.core import Failure, Stats, Sub, Violation
 
 ID = "C19"
 LEVEL = "exploration"
-TECHNIQUE = "statistical oracle: N seeded draws per enumerable grid compared with the exact spanning-tree set (membership, coverage) and the uniform law (Pearson chi-square over trees and per-edge inclusion marginals); on grids too large to enumerate (4x4..7x7, thorough ..10x10) exact single-edge and edge-pair inclusion probabilities from the transfer-current theorem; alarm only at p < 1e-9 (Bonferroni)"
+TECHNIQUE = "statistical oracle: N seeded draws per enumerable grid compared with the exact spanning-tree set (membership, coverage) and the uniform law (Pearson chi-square over trees and per-edge inclusion marginals); on grids too large to enumerate (4x4..7x7, thorough ..10x10) exact single-edge and edge-pair inclusion probabilities from the transfer-current theorem; alarm only at p < 1e-9 (Bonferroni); dataset route also with pool workers replaced after 25 tasks"
 RULE = (
     "case = (grid shape, list of numpy seeds, draws per seed); each seed re-seeds the global numpy RNG before a block of draws. "
     "evaluations = draws; a draw is non-trivial when the grid has >= 2 spanning trees; distinct_nontrivial counts distinct "
